@@ -21,6 +21,7 @@ package props
 
 import (
 	"fmt"
+	"io"
 	"strings"
 
 	"seehuhn.de/go/postscript"
@@ -34,6 +35,9 @@ func init() { register("C02", runC02) }
 type psEnv struct {
 	bt     builtinTable
 	stdEnc []string
+	// fileOps lets the reference evaluator execute currentfile/closefile and treat
+	// the access operators as the no-ops they are in Type 1 fonts (its "reader" mode)
+	fileOps bool
 }
 
 func newPSEnv() *psEnv {
@@ -51,15 +55,23 @@ func (env *psEnv) runPS(c *rt.C, prog []ref.Tok, fpPrefix string, withSystem boo
 	text := ref.RenderTokens(prog)
 	c.SetDetail(func() string { return "program: " + text })
 	model := ref.NewInterp(env.stdEnc)
+	model.Lenient = env.fileOps
 	merr := model.Run(prog)
 	if u, ok := merr.(*ref.Unsupported); ok {
 		c.Skip("unsupported_by_design")
 		_ = u
 		return psOutcome{"unsupported"}
 	}
+	closed := merr == ref.ErrCloseFile
+	if closed {
+		merr = nil // closing the current file ends the program like its end does
+	}
 	lib := postscript.NewInterpreter()
 	lib.MaxOps = 2_000_000
 	lerr := lib.ExecuteString(text)
+	if closed && lerr == io.EOF {
+		lerr = nil // Execute reports a program that closed its own file with io.EOF
+	}
 	switch e := merr.(type) {
 	case nil:
 	case *ref.PSErr:
@@ -306,6 +318,22 @@ func runC02(r *rt.Runner) {
 			out := env.runPS(c, ref.MustParse(p), "pinned:"+p, true)
 			c.Count("pinned:" + out.class)
 			c.Nontrivial([]byte("pinned|"+p), func() string { return p })
+		})
+	}
+
+	// the file operators as font programs use them, in clear text: closing the
+	// current file ends the program at that point, with the operands gone
+	for _, p := range []string{"currentfile closefile 1 2", "1 currentfile closefile 2", "mark currentfile closefile 5", "currentfile closefile",
+		"7 8 currentfile closefile", "/x 1 def currentfile closefile /x 2 def", "{ currentfile closefile } exec 9", "1 2 currentfile pop", "currentfile currentfile pop closefile 3",
+		"closefile", "5 closefile", "(a) closefile", "mark closefile", "[ 1 2 ] readonly 0 get", "{ 1 } executeonly exec", "(abc) noaccess length", "3 dict readonly begin currentdict end length",
+		"true currentfile closefile"} {
+		p := p
+		r.Case("file-operators", func(c *rt.C) {
+			fenv := *env
+			fenv.fileOps = true
+			out := fenv.runPS(c, ref.MustParse(p), "fileops:"+p, false)
+			c.Count("file operators: " + out.class)
+			c.Nontrivial([]byte("fileops|"+p), func() string { return p + " -> " + out.class })
 		})
 	}
 
